@@ -155,68 +155,89 @@ def build(ctx):
     return os.path.join(d, "histx"), ""
 
 
-def sweep(ctx, tool, n_total=12000, maxops=120, procs=14):
-    """long histories on the real jsondb -> monitor (python) + extracted model (correspondence)"""
+def _worker(args):
+    """one process: generate + execute histories on the real jsondb, monitor them, run the extracted model"""
+    i, per, maxops, first, scratch, seed, tool, exe = args
+    p = os.path.join(scratch, "xh-%d.jsonl" % i)
+    rc, out, dt = vlib.run_tool(tool, [p, "gen", per, maxops, first], env_extra={"VERIF_SEED": str(seed)}, timeout=6000)
+    if rc != 0:
+        return {"err": out[-800:]}
+    hs = vlib.read_jsonl(p)
+    os.remove(p)
+    r = {"n": 0, "ops": 0, "evals": 0, "classes": {}, "failing": [], "bad": [], "ndom": 0}
+    inp = os.path.join(scratch, "xh-%d.txt" % i)
+    dom = []
+    with open(inp, "w") as f:
+        for h in hs:
+            h.setdefault("steps", [])
+            m = HL.Monitor(h)
+            fails = m.run()
+            r["n"] += 1
+            r["ops"] += len(h["steps"])
+            r["evals"] += sum(len(s["per"]) * (7 + len(s["reqs"])) for s in h["steps"])
+            for c in set(x["cls"] for x in fails) or {"spec-conform"}:
+                r["classes"][c] = r["classes"].get(c, 0) + 1
+            if fails:
+                firsts, seen = [], set()
+                for x in fails:
+                    if (x["cls"], x["query"] if x["cls"] == "other" else "") not in seen:
+                        seen.add((x["cls"], x["query"] if x["cls"] == "other" else ""))
+                        firsts.append(x)
+                unknown = any(x["cls"] == "other" for x in firsts)
+                r["failing"].append((h if unknown else HL.strip_exec(h), firsts, unknown))
+            if not m.upd_open:
+                encode(h, f)
+                dom.append(h)
+    rc, out, dt = vlib.sh("%s < %s" % (exe, inp), timeout=6000)
+    os.remove(inp)
+    if rc != 0:
+        return {"err": out[-800:]}
+    r["ndom"] = len(dom)
+    for line in out.strip().split("\n"):
+        if not line:
+            continue
+        k, st, nm, comp = [int(x) for x in line.split()]
+        if comp != 0:
+            r["bad"].append((HL.strip_exec(dom[k]), [n["d"] for n in dom[k]["names"]], st, nm, comp))
+    return r
+
+
+def sweep(ctx, tool, n_total=10000, maxops=100, procs=14):
+    """long histories on the real jsondb -> monitor (python) + extracted model (correspondence), in worker processes"""
+    from concurrent.futures import ProcessPoolExecutor
     from props import C06
     exe, log = build(ctx)
     if exe is None:
         ctx.fail("correspondence", "the extracted model does not build", {"log": log[-2000:]})
         return
-    per = (n_total + procs - 1) // procs
+    chunks = procs * 4
+    per = (n_total + chunks - 1) // chunks
     base = 100000   # disjoint from the histories of the in-Coq tiers
     stats = {"histories": 0, "mismatches": 0, "monitor_classes": {}, "ops": 0}
-
-    def one(i):
-        first = base + i * per
-        p = os.path.join(ctx.scratch, "xh-%d.jsonl" % i)
-        rc, out, dt = vlib.run_tool(tool, [p, "gen", per, maxops, first], env_extra={"VERIF_SEED": str(ctx.seed)}, timeout=6000)
-        if rc != 0:
-            return ("err", out[-800:])
-        hs = vlib.read_jsonl(p)
-        os.remove(p)
-        res = []
-        inp = os.path.join(ctx.scratch, "xh-%d.txt" % i)
-        dom = []
-        with open(inp, "w") as f:
-            for h in hs:
-                m = HL.Monitor(h)
-                fails = m.run()
-                res.append((h, fails, m.upd_open))
-                if not m.upd_open:
-                    encode(h, f)
-                    dom.append(h)
-        rc, out, dt = vlib.sh("%s < %s" % (exe, inp), timeout=6000)
-        os.remove(inp)
-        bad = []
-        if rc != 0:
-            return ("err", out[-800:])
-        for line in out.strip().split("\n"):
-            if not line:
-                continue
-            k, st, nm, comp = [int(x) for x in line.split()]
-            if comp != 0:
-                bad.append((dom[k], st, nm, comp))
-        return ("ok", res, bad, len(dom))
-    with ThreadPoolExecutor(max_workers=procs) as ex:
-        results = list(ex.map(one, range(procs)))
+    jobs = [(i, per, maxops, base + i * per, ctx.scratch, ctx.seed, tool, exe) for i in range(chunks)]
+    with ProcessPoolExecutor(max_workers=procs) as ex:
+        results = list(ex.map(_worker, jobs))
     for r in results:
-        if r[0] == "err":
-            ctx.fail("correspondence", "extracted-model sweep failed", {"log": r[1]})
+        if "err" in r:
+            ctx.fail("correspondence", "extracted-model sweep failed", {"log": r["err"]})
             continue
-        _, res, bad, ndom = r
-        for h, fails, upd in res:
-            stats["histories"] += 1
-            stats["ops"] += len(h["steps"])
-            for c in set(f["cls"] for f in fails) or {"spec-conform"}:
-                stats["monitor_classes"][c] = stats["monitor_classes"].get(c, 0) + 1
-            if fails:
-                C06.report_monitor(ctx, tool, h, fails, do_shrink=True)
-            ctx.cov["evaluations"] += sum(len(s["per"]) * (7 + len(s["reqs"])) for s in h["steps"])
-        ctx.cov["traces_validated_against_impl"] += ndom - len(bad)
-        for h, stepi, namei, comp in bad:
+        stats["histories"] += r["n"]
+        stats["ops"] += r["ops"]
+        ctx.cov["evaluations"] += r["evals"]
+        for c, v in r["classes"].items():
+            stats["monitor_classes"][c] = stats["monitor_classes"].get(c, 0) + v
+        for h, firsts, unknown in r["failing"]:
+            if unknown:
+                C06.report_monitor(ctx, tool, h, firsts, do_shrink=True)
+            else:
+                for f in firsts:
+                    ctx.fail("monitor", "%s of DAG %s after step %d is not what the recorded history says" % (f["query"], f["name"], f["step"]),
+                             {"history": h, "failure": f}, cls={"class": f["cls"], "query": f["query"]})
+        ctx.cov["traces_validated_against_impl"] += r["ndom"] - len(r["bad"])
+        for h, names, stepi, namei, comp in r["bad"]:
             stats["mismatches"] += 1
-            nm = h["names"][namei]["d"] if namei < len(h["names"]) else "?"
+            nm = names[namei] if namei < len(names) else "?"
             ctx.fail("correspondence", "extracted model and implementation differ at step %d, DAG %s, component %s"
-                     % (stepi, nm, HL.COMPONENT.get(comp, comp)), {"history": HL.strip_exec(h), "step": stepi, "name": nm})
+                     % (stepi, nm, HL.COMPONENT.get(comp, comp)), {"history": h, "step": stepi, "name": nm})
     ctx.cov["extracted_sweep"] = stats
     ctx.cov["trusted_base"].append("thorough tier only: Coq extraction (ExtrOcamlBasic) of Hist/Check.check_hcase + OCaml reader (tools/props/hist_extract.py)")
